@@ -1,6 +1,7 @@
 import VyxalModel.Model.Lists
 import Mathlib.Data.List.Sublists
 import Mathlib.Data.Nat.Factorial.Basic
+import Mathlib.Tactic.Ring
 /-!
 # C16 — list builtins obey their defining laws
 
@@ -13,7 +14,10 @@ item with its multiplicity; sort is the ordered permutation (Python's `sorted`, 
 sum / product are the folds; the powerset element enumerates exactly the sub-sequences, each once for a duplicate-free
 list, `2^n` of them (`powerset_eq_sublists`: the element's doubling loop *is* Mathlib's `List.sublists`); the permutations
 element (`itertools.permutations`, modelled by position) yields `n!` lists, each a permutation of the argument.
-The cartesian product (diagonal order) and `sublists` are covered by the correspondence and the law oracles only (T5).
+`sublists` yields exactly the non-empty contiguous pieces (`contiguous_mem`, `contiguous_length`); overlapping groups are the
+`take k ∘ drop i` (`windows_spec`); run-length encoding and decoding are inverse bijections between lists and lists of
+maximal runs (`rld_rle`, `rle_runs`, `rle_rld`).
+The cartesian product (diagonal order) is covered by the correspondence and the law oracles only (T5).
 -/
 namespace C16
 open Ls
@@ -178,7 +182,7 @@ theorem chunks_size (k : Nat) : ∀ (f : Nat) (l : List Int), ∀ c ∈ chunks k
   | f + 1, x :: xs, c, h => by
     simp only [chunks, List.mem_cons] at h
     rcases h with rfl | h
-    · simp [List.length_take]; omega
+    · rw [List.length_take]; omega
     · exact chunks_size k f _ c h
 
 /-- the chunks of `wrap` concatenate back to the list and none is longer than `k` -/
@@ -349,5 +353,216 @@ theorem permsFuel_spec : ∀ (n : Nat) (l : List Int), l.length = n →
 theorem permutations_spec (l : List Int) :
     (permutations l).length = l.length.factorial ∧ ∀ p ∈ permutations l, p.Perm l :=
   permsFuel_spec l.length l rfl
+
+/-! ## sublists (`ÞS`): exactly the non-empty contiguous pieces -/
+
+theorem suffixesNE_mem (l s : List Int) : s ∈ suffixesNE l ↔ s ≠ [] ∧ s <:+ l := by
+  induction l with
+  | nil => simp [suffixesNE]
+  | cons x xs ih =>
+    simp only [suffixesNE, List.mem_cons, ih, List.suffix_cons_iff]
+    constructor
+    · rintro (rfl | ⟨h1, h2⟩)
+      · exact ⟨by simp, Or.inl rfl⟩
+      · exact ⟨h1, Or.inr h2⟩
+    · rintro ⟨h1, rfl | h2⟩
+      · exact Or.inl rfl
+      · exact Or.inr ⟨h1, h2⟩
+
+theorem suffixesNE_length (l : List Int) : (suffixesNE l).length = l.length := by
+  induction l with
+  | nil => rfl
+  | cons x xs ih => simp [suffixesNE, ih]
+
+theorem prefixes_mem (l p : List Int) : p ∈ prefixes l ↔ p ≠ [] ∧ p <+: l := by
+  constructor
+  · intro h
+    obtain ⟨i, hi0, rfl⟩ := List.getElem_of_mem h
+    have hi : i < l.length := by rw [prefixes_length] at hi0; exact hi0
+    have := prefixes_spec l i hi
+    rw [List.getElem?_eq_getElem hi0] at this
+    injection this with this
+    rw [this]
+    refine ⟨?_, List.take_prefix _ _⟩
+    intro he
+    have hz : (l.take (i + 1)).length = 0 := by rw [he]; rfl
+    rw [List.length_take] at hz; omega
+  · rintro ⟨hne, hp⟩
+    have hlen : p.length ≤ l.length := hp.length_le
+    have hpos : 0 < p.length := List.length_pos_iff.mpr hne
+    have h1 : p.length - 1 < l.length := by omega
+    have := prefixes_spec l (p.length - 1) h1
+    have e : p.length - 1 + 1 = p.length := by omega
+    rw [e, ← List.prefix_iff_eq_take.mp hp] at this
+    exact List.mem_of_getElem? this
+
+/-- **sublists** yields exactly the non-empty contiguous pieces of the list -/
+theorem contiguous_mem (l s : List Int) : s ∈ contiguous l ↔ s ≠ [] ∧ s <:+: l := by
+  simp only [contiguous, List.mem_flatMap, prefixes_mem, suffixesNE_mem]
+  constructor
+  · rintro ⟨p, ⟨_, hp⟩, hs, hsp⟩
+    exact ⟨hs, List.infix_iff_suffix_prefix.mpr ⟨p, hsp, hp⟩⟩
+  · rintro ⟨hs, hi⟩
+    obtain ⟨p, hsp, hp⟩ := List.infix_iff_suffix_prefix.mp hi
+    refine ⟨p, ⟨?_, hp⟩, hs, hsp⟩
+    intro he; subst he
+    exact hs (List.suffix_nil.mp hsp)
+
+theorem contiguousGo_length (acc l : List Int) :
+    2 * ((prefixesGo acc l).flatMap suffixesNE).length = l.length * (2 * acc.length + l.length + 1) := by
+  induction l generalizing acc with
+  | nil => simp [prefixesGo]
+  | cons x xs ih =>
+    simp only [prefixesGo, List.flatMap_cons, List.length_append, suffixesNE_length, List.length_cons, List.length_nil]
+    have := ih (acc ++ [x])
+    simp only [List.length_append, List.length_cons, List.length_nil] at this
+    rw [Nat.mul_add, this]
+    ring
+
+/-- … `n (n + 1) / 2` of them -/
+theorem contiguous_length (l : List Int) : 2 * (contiguous l).length = l.length * (l.length + 1) := by
+  have := contiguousGo_length [] l
+  simpa [contiguous, prefixes] using this
+
+/-! ## overlapping groups (`l`): the windows of length `k`, in order -/
+
+theorem windowsGo_spec (k : Nat) (l : List Int) : ∀ (w : List Int), w.length < k →
+    windowsGo k w l = (List.range (w.length + l.length + 1 - k)).map (fun i => ((w ++ l).drop i).take k) := by
+  induction l with
+  | nil =>
+    intro w hw
+    have : w.length + 0 + 1 - k = 0 := by omega
+    simp [windowsGo, this]
+  | cons x xs ih =>
+    intro w hw
+    simp only [windowsGo]
+    by_cases hk : (w ++ [x]).length = k
+    · rw [if_pos hk]
+      have hwl : w.length + 1 = k := by simpa using hk
+      have htl : (w ++ [x]).tail.length < k := by simp; omega
+      rw [ih _ htl]
+      have hcnt : w.length + (x :: xs).length + 1 - k = xs.length + 1 := by simp; omega
+      have hcnt' : (w ++ [x]).tail.length + xs.length + 1 - k = xs.length := by simp; omega
+      rw [hcnt, hcnt', List.range_succ_eq_map, List.map_cons, List.map_map]
+      congr 1
+      · have : w ++ x :: xs = (w ++ [x]) ++ xs := by simp
+        rw [List.drop_zero, this, List.take_left' hk]
+      · apply List.map_congr_left
+        intro i _
+        have : w ++ x :: xs = (w ++ [x]) ++ xs := by simp
+        simp only [Function.comp, this]
+        cases hwx : w ++ [x] with
+        | nil => simp at hwx
+        | cons a as => simp
+    · rw [if_neg hk]
+      have hlt : (w ++ [x]).length < k := by
+        have : (w ++ [x]).length = w.length + 1 := by simp
+        omega
+      rw [ih _ hlt]
+      have hcnt : (w ++ [x]).length + xs.length + 1 - k = w.length + (x :: xs).length + 1 - k := by simp; omega
+      rw [hcnt]
+      simp
+
+/-- **overlapping groups**: for `0 < k`, window `i` is `take k (drop i l)`, and there are `n + 1 - k` of them (none when `k > n`) -/
+theorem windows_spec (l : List Int) (k : Int) (hk : 0 < k) :
+    windows l k = (List.range (l.length + 1 - k.toNat)).map (fun i => (l.drop i).take k.toNat) := by
+  have h1 : ¬ k ≤ 0 := by omega
+  have h2 : ([] : List Int).length < k.toNat := by simp; omega
+  simp only [windows, if_neg h1]
+  rw [windowsGo_spec k.toNat l [] h2]
+  simp
+
+theorem windows_nonpositive (l : List Int) (k : Int) (hk : k ≤ 0) : windows l k = [] := by simp [windows, hk]
+
+/-! ## run-length encoding / decoding -/
+
+theorem rleGo_decode (prev : Int) (n : Nat) (l : List Int) : rld (rleGo prev n l) = List.replicate n prev ++ l := by
+  induction l generalizing prev n with
+  | nil => simp [rleGo, rld]
+  | cons x xs ih =>
+    simp only [rleGo]
+    split
+    · rename_i h; subst h
+      rw [ih]; simp [List.replicate_succ', List.append_assoc]
+    · have := ih x 1
+      simp only [rld, List.flatMap_cons] at this ⊢
+      rw [this]; simp [List.replicate]
+
+/-- **decoding the run-length encoding gives the list back** -/
+theorem rld_rle (l : List Int) : rld (rle l) = l := by
+  cases l with
+  | nil => rfl
+  | cons x xs => simp [rle, rleGo_decode, List.replicate]
+
+/-- a run list as the encoder produces it: positive counts, neighbouring keys different -/
+def RunsOK : List (Int × Nat) → Prop
+  | [] => True
+  | [p] => 0 < p.2
+  | p :: q :: rest => 0 < p.2 ∧ p.1 ≠ q.1 ∧ RunsOK (q :: rest)
+
+theorem rleGo_runs (prev : Int) (n : Nat) (hn : 0 < n) (l : List Int) :
+    RunsOK (rleGo prev n l) ∧ ((rleGo prev n l).head?.map (·.1)) = some prev := by
+  induction l generalizing prev n with
+  | nil => simp [rleGo, RunsOK, hn]
+  | cons x xs ih =>
+    simp only [rleGo]
+    split
+    · exact ih prev (n + 1) (by omega)
+    · rename_i hne
+      obtain ⟨h1, h2⟩ := ih x 1 (by omega)
+      refine ⟨?_, by simp⟩
+      cases hr : rleGo x 1 xs with
+      | nil => simp [hr] at h2
+      | cons q rest =>
+        rw [hr] at h1 h2
+        simp at h2
+        exact ⟨hn, by rw [h2]; exact fun e => hne e.symm, h1⟩
+
+/-- the encoder's output consists of maximal runs -/
+theorem rle_runs (l : List Int) : RunsOK (rle l) := by
+  cases l with
+  | nil => trivial
+  | cons x xs => exact (rleGo_runs x 1 (by omega) xs).1
+
+theorem rleGo_replicate_append (prev : Int) (n m : Nat) (l : List Int) :
+    rleGo prev n (List.replicate m prev ++ l) = rleGo prev (n + m) l := by
+  induction m generalizing n with
+  | zero => simp
+  | succ m ih =>
+    simp only [List.replicate_succ, List.cons_append, rleGo, if_true]
+    rw [ih]; congr 1; omega
+
+/-- **encoding the decoding of a run list gives the run list back** (so the two are inverse bijections between lists and run lists) -/
+theorem rle_rld : ∀ (ps : List (Int × Nat)), RunsOK ps → rle (rld ps) = ps
+  | [], _ => rfl
+  | [p], h => by
+      obtain ⟨v, c⟩ := p
+      have hc : 0 < c := h
+      obtain ⟨c', rfl⟩ : ∃ c', c = c' + 1 := ⟨c - 1, by omega⟩
+      have := rleGo_replicate_append v 1 c' []
+      simp only [List.append_nil] at this
+      simp [rld, List.replicate_succ, rle, this, rleGo, Nat.add_comm]
+  | p :: q :: rest, h => by
+      obtain ⟨v, c⟩ := p
+      obtain ⟨hc, hne, hrest⟩ := h
+      have hc : 0 < c := hc
+      obtain ⟨c', rfl⟩ : ∃ c', c = c' + 1 := ⟨c - 1, by omega⟩
+      have ih := rle_rld (q :: rest) hrest
+      obtain ⟨w, d⟩ := q
+      have hd : 0 < d := by
+        cases rest with
+        | nil => exact hrest
+        | cons _ _ => exact hrest.1
+      obtain ⟨d', rfl⟩ : ∃ d', d = d' + 1 := ⟨d - 1, by omega⟩
+      have hne : v ≠ w := hne
+      simp only [rld, List.flatMap_cons, List.replicate_succ, List.cons_append, rle] at ih ⊢
+      rw [rleGo_replicate_append]
+      simp only [rleGo, if_neg (Ne.symm hne)]
+      rw [ih, Nat.add_comm]
+
+/-- non-vacuity: `aabccc` -/
+example : rle [97, 97, 98, 99, 99, 99] = [(97, 2), (98, 1), (99, 3)] ∧ RunsOK [(97, 2), (98, 1), (99, 3)]
+    ∧ windows [1, 2, 3, 4] 2 = [[1, 2], [2, 3], [3, 4]] ∧ contiguous [1, 2, 3] = [[1], [1, 2], [2], [1, 2, 3], [2, 3], [3]] := by
+  refine ⟨by decide, by simp [RunsOK], by decide, by decide⟩
 
 end C16
